@@ -272,10 +272,17 @@ def run_uf(ctx, prop='C17', conformance_runs=True):
             len(helpers), core.REPO, U.HELPER_DIR, MIN_HELPERS))
     nob = nok = nhelp = 0
     reports = []
+    # helpers that build their formula by hand (no library call to equate with) may be under a pyvc contract instead
+    from pyvc import run as _pyrun
+    from checks import proofs as _proofs
+    _pyvc_keys = {k for k, c in _pyrun.load_contracts(_proofs._all_contract_modules())[0].items() if 'C17' in c.get('property', [])}
     for rel, cls, kind, cli in helpers:
         fname = '{}:{}.{}'.format(rel, cls.name, 'build_formula' if kind == 'formula' else 'transform_cnf')
         rep = U.check_helper(src, rel, cls, kind, cli, K.UF_CONTRACTS.get(cls.name), gl)
         reports.append(rep)
+        if rep.unsupported and (rel, '{}.{}'.format(cls.name, 'build_formula' if kind == 'formula' else 'transform_cnf')) in _pyvc_keys:
+            p.setdefault('by_pyvc', []).append(fname)      # decided by the pyvc contract of this very function (contracts/cli_simple.py)
+            continue
         if rep.unsupported:
             why = rep.unsupported
             if cls.name in K.NO_LIBRARY_CALL:
